@@ -100,7 +100,7 @@ func socketListArg(s *slip.Scope, arg slip.Object, name string, depth int) (list
 func setSocketSets(s *slip.Scope, list slip.List, name string, depth int) *FdSet {
 	var set FdSet
 	for _, val := range list {
-		if sock, _ := val.(*flavors.Instance); sock.IsA("socket") {
+		if sock, _ := val.(*flavors.Instance); sock != nil && sock.IsA("socket") {
 			if fd, ok := sock.Any.(int); ok {
 				set.Set(fd)
 			}
